@@ -718,9 +718,12 @@ int main(int argc, char** argv)
 				labelOf(run, g_label, sizeof g_label);
 				const uint64_t cur = r;
 				if (write(fds[1], &cur, sizeof cur) != sizeof cur) _exit(3);
-				itimerval tv{}; tv.it_value.tv_sec = cpuSeconds;
+				// CPU budget of one run: the base plus one second per 10 KB of input (only non-termination is a "Hang"; a long but
+				// finite computation on a 400 KB document is not)
+				const unsigned budget = cpuSeconds + static_cast<unsigned>((in.doc.size() + in.units.size()) / 10000);
+				itimerval tv{}; tv.it_value.tv_sec = budget;
 				setitimer(ITIMER_PROF, &tv, nullptr);
-				alarm(cpuSeconds * 12 + 60);
+				alarm(budget * 12 + 60);
 				ExecuteRun(in, targetsOfInput[run.input][run.target], kPols[run.pol], g_media[run.medium]);
 				itimerval off{};
 				setitimer(ITIMER_PROF, &off, nullptr);
